@@ -117,8 +117,10 @@ def handle (line : String) : Json :=
           let k ← nat (← fld j "k")
           let flag ← Wire.bool (← fld j "flag")
           let storage := ["lift_alloc", "sink_alloc", "delete_buffer", "delete_pass", "expand_dim", "bind_expr",
-                          "divide_dim", "mult_dim", "rearrange_dim", "resize_dim", "unroll_buffer"]
-          let dataOps := ["split_write", "merge_writes", "fold_into_reduce", "lift_reduce_constant", "inline_assign", "rewrite_expr"]
+                          "divide_dim", "mult_dim", "rearrange_dim", "resize_dim", "unroll_buffer",
+                          "stage_mem", "reuse_buffer"]
+          let dataOps := ["split_write", "merge_writes", "fold_into_reduce", "lift_reduce_constant", "inline_assign", "rewrite_expr",
+                          "commute_expr", "left_reassociate_expr", "divide_with_recompute"]
           match (if ["inline", "extract_subproc"].contains name then Exo.Rw.checkCalls name path k flag before.body after.body
                  else if dataOps.contains name then Exo.Rw.checkData name path k flag before.body after.body
                  else if storage.contains name then Exo.Rw.checkStorage name path k flag before.body after.body
